@@ -135,7 +135,7 @@ Done == c.pc = "done"
 \* C07
 GeneratorsOnlyAfterCleanCompile == started # {} => (scn.cls \notin ErrClasses /\ ~scn.dry)
 DryRunMeansNoGenerators         == scn.dry => started = {}
-WarningsDoNotBlock              == Done /\ scn.cls = "warn" /\ ~scn.dry => started = {i \in G : Beh(i) \notin NotStarted}
+WarningsDoNotBlock              == Done /\ scn.cls \in WarnClasses /\ ~scn.dry => started = {i \in G : Beh(i) \notin NotStarted}
 ExitNonZeroIffError             == Done => (c.exit # 0 <=> (scn.cls \in ErrClasses \/ (\E i \in G : Failed(i)) \/ fileErrs > 0))
 \* C18
 EveryFailureNamesItsGenerator   == Done /\ Runs(scn) => \A i \in G : Beh(i) \notin OkLike => Failed(i)
